@@ -38,12 +38,15 @@ RULES = {
     "collection that is grown inside a loop and stored into an IR/proto object once per iteration is created inside that "
     "loop - a collection created before the loop carries the entries of earlier nodes into later ones (duplicated device "
     "configurations, attributes, …)",
+    "R11": "string payloads are passed through, never re-encoded: StringTensor.string_data() - the source of "
+    "TensorProto.string_data - hands out the stored sequence of bytes (or the elements of a stored ndarray) and does "
+    "not build a numpy array from a sequence: a fixed-width numpy bytes array drops trailing NUL bytes of every element",
     "R7": "no early exit of a writer bypasses a field write: for every `return` inside a serialize function, each proto "
     "field write that would still be reached if the function went on is either data-dependent on what the return's "
     "guard tested (nothing to write), or the return follows a whole-message CopyFrom, or it follows a logged warning "
     "(declared unsupported case)",
 }
-FLOORS = {"R1": 100, "R2": 40, "R3": 30, "R4": 1, "R5": 40, "R6": 20, "R7": 6, "R8": 3, "R9": 3, "R10": 10}
+FLOORS = {"R1": 100, "R2": 40, "R3": 30, "R4": 1, "R5": 40, "R6": 20, "R7": 6, "R8": 3, "R9": 3, "R10": 10, "R11": 1}
 EXPLANATION = (
     "Types every proto expression of serde.py through parameter annotations and the parsed onnx-ml.proto schema, "
     "collects per message the fields the deserializer reads and the serializer writes (attribute access, HasField, "
@@ -762,7 +765,46 @@ def rule_r10(ctx):
     ctx.require(n >= 10, f"only {n} functions with loops found in serde")
 
 
+def rule_type_reader_siblings(ctx, rule="R3"):
+    """The branches of the type reader are siblings: every IR type object it constructs receives the same keyword
+    information (the type denotation) - a branch that omits a keyword the others pass loses that field for one type kind."""
+    f = ctx.repo.func(f"{SERDE}:deserialize_type_proto_for_type")
+    tp = ctx.repo.modules["onnx_ir._protocols"].classes.get("TypeProtocol")
+    ctors = []
+    for c in calls_in(f):
+        k = ctx.typer.ctor_class(f, c)
+        if k is not None and tp is not None and ctx.repo.is_subclass(k, tp):
+            ctors.append((c, k))
+    ctx.require(len(ctors) >= 4, f"type reader: only {len(ctors)} type constructions found")
+    kwsets = [frozenset(kw.arg for kw in c.keywords if kw.arg) for c, _ in ctors]
+    union = frozenset().union(*kwsets)
+    for (c, k), kws in zip(ctors, kwsets):
+        missing = sorted(union - kws)
+        ctx.check(rule, f"deserialize_type_proto_for_type: {k.name}(…) passes {sorted(union)}", not missing, f, c,
+                  f"`{norm(c)}` omits {missing}, which the sibling branches pass: for this kind of type the {', '.join(missing)} of the proto is dropped when "
+                  "the IR object is built, so it is gone after a round trip",
+                  how="keyword sets of the IR type constructions in the reader's dispatch are equal", construct=f"{k.name} construction omits {missing}")
+
+
+def rule_r11(ctx):
+    f = ctx.repo.func("onnx_ir._core:StringTensor.string_data")
+    bad = None
+    for c in calls_in(f):
+        d = dotted_of(c.func) or ""
+        if d.split(".")[-1] in ("array", "asarray", "asanyarray", "fromiter") and d.split(".")[0] in ("np", "numpy"):
+            bad = c
+        if isinstance(c.func, ast.Attribute) and c.func.attr in ("numpy", "__array__") and norm(c.func.value) == f.params[0]:
+            bad = c
+    ctx.check("R11", "StringTensor.string_data does not go through a numpy array built from the stored sequence", bad is None, f, bad if bad is not None else f.node,
+              f"`{norm(bad) if bad is not None else ''}` turns the stored sequence of bytes into a numpy array before it is written to the proto: numpy's "
+              "fixed-width bytes dtype strips trailing NUL bytes, so b'key\\x00\\x00' comes back as b'key' after a round trip",
+              how="no self.numpy()/self.__array__()/np.array(...) call in string_data (elements of an existing ndarray are taken with tolist())",
+              construct="string payload re-encoded through numpy")
+
+
 def run(ctx):
+    rule_type_reader_siblings(ctx)
+    rule_r11(ctx)
     rule_r10(ctx)
     rule_r9(ctx)
     rule_r6(ctx)
